@@ -5,6 +5,7 @@
 import BioCantor.Spec.Tables
 import BioCantor.Model.Tables
 import BioCantor.Proofs.TabLemmas
+set_option linter.unusedSimpArgs false
 namespace BioCantor.Proofs.Tab
 open BioCantor BioCantor.GenP BioCantor.Spec.Tab BioCantor.Model.Tab
 
@@ -55,8 +56,11 @@ theorem mkCodon_eq (s : List Char) :
   simp only
   by_cases h3 : (upper s).length = 3
   · by_cases hall : (upper s).all (fun c => Gen.codonAlphabet.contains c) = true
-    · simp [h3, hall]
-    · simp [h3, hall]
+    · simp only [h3, hall, ne_eq, not_true_eq_false, not_false_eq_true, if_false, if_true, decide_true,
+        Bool.true_and, Bool.and_self]
+    · have hall' := Bool.eq_false_iff.2 hall
+      simp only [h3, hall', ne_eq, not_true_eq_false, not_false_eq_true, if_false, if_true, decide_true,
+        Bool.true_and, Bool.false_eq_true, Bool.and_false]
   · simp [h3]
 
 /-! ### translate -/
@@ -115,7 +119,7 @@ theorem translate_raw_ok (s : List Char) (strict : Bool) :
   by_cases hv : (expansions (upper s)).isSome = true
   · simp only [hv, if_true, Except.map, ansP_ok]
     exact translate_ok _ _ hv
-  · simp only [hv, Except.map, ansP_error]
+  · simp only [hv, Except.map]
     unfold okTranslate
     cases he : expansions (upper s) with
     | none => rfl
@@ -123,7 +127,7 @@ theorem translate_raw_ok (s : List Char) (strict : Bool) :
 
 /-- nothing but the standard code and sound ambiguous calls: any residue other than `X` returned for a valid
     codon is coded by EVERY expansion of the codon -/
-theorem translate_sound (val : List Char) (strict : Bool) (hv : (expansions val).isSome = true)
+theorem translate_sound (val : List Char) (strict : Bool)
     (hx : translate val strict ≠ 'X') : allExpansionsCode val (translate val strict) = true := by
   cases hg : Gen.gencode.lookup val with
   | some a =>
@@ -221,9 +225,6 @@ theorem synonymous_ok (val : List Char) (incl : Bool) (hv : (expansions val).isS
       | some es =>
         simp [okSynB, okSynonymous, synonymousCodons, translate, hg, hx, hs, he]
 
-theorem stop_row : Gen.aacodons.lookup '*' = some (match Gen.aacodons.lookup '*' with | some cs => cs | none => []) ∧
-    (Gen.aacodons.lookup '*').isSome = true := by decide +kernel
-
 def chkStops : Bool :=
   match Gen.aacodons.lookup '*' with
   | some cs => cs.all (fun c => stopCodons.contains c) && stopCodons.all (fun c => cs.contains c)
@@ -241,8 +242,8 @@ theorem isStop_ok (val : List Char) (hv : (expansions val).isSome = true) :
     | none => simp [hl] at hc
     | some cs =>
       simp only [hl, Bool.and_eq_true] at hc
-      have := contains_congr cs stopCodons hc.1 hc.2 val
-      simp [okIsStop, isStopCodon, dictGetE, hl, he, this]
+      simp [okIsStop, isStopCodon, dictGetE, hl, he]
+      exact mem_iff_of_all cs stopCodons hc.1 hc.2 val
 
 /-- stop codons are exactly the codons the standard code translates to `*` -/
 theorem stop_iff_star (c : List Char) : stopCodons.contains c = true ↔ stdTranslate c = some '*' := by
